@@ -150,6 +150,7 @@ class Interp:
         self._seq = 0
         self._new_id = 0
         self.unresolved = []
+        self.pending = []
         self.record = True
         if sticky_attrs:
             # stores to these self attributes keep the symbolic attribute as their value
@@ -226,6 +227,9 @@ class Interp:
         n0 = len(self.pc)
         for st in stmts:
             l = self.exec_stmt(st, fr)
+            if self.pending:
+                l = T.mk_and([l] + self.pending)
+                self.pending = []
             if l.key != TRUE.key:
                 live = T.mk_and([live, l])
                 self.pc.append(l)
@@ -618,7 +622,7 @@ class Interp:
                           rhs=rhs, old=old, base_node=tgt.value)
         elif isinstance(tgt, ast.Subscript):
             base = self.ev(tgt.value, fr)
-            idx = self.ev_index(tgt.slice, fr)
+            idx = T._norm_index(self.ev_index(tgt.slice, fr))
             if not quiet:
                 self.emit('store', st, fr, target='sub', base=base, key=idx, value=v, aug=aug, rhs=rhs,
                           old=old, base_node=tgt.value)
